@@ -10,11 +10,28 @@
 //! must be the original set plus at most that DID (nothing dropped, foreign DIDs untouched) and
 //! everything else equal. The expected JSON is rendered by the harness from its own model, never
 //! taken from the library.
+//!
+//! Block level (`IotaDocument::unpack_from_block`): case = one block with a transaction payload of 1-5 outputs built by
+//! the harness (alias outputs with packed documents for the same or another DID / network, with a set or a null alias id,
+//! with or without trailing bytes; alias outputs with empty state metadata; basic outputs) in which zero, one or two alias
+//! outputs carry state metadata that the statement says is rejected (wrong marker / version / encoding byte, length
+//! prefix exceeding the data, truncated frame, bytes of another application without the marker). Oracle (from the
+//! statement): a block offering such a byte string is not unpacked successfully (skipping it is ignoring, not rejecting);
+//! a block of well-formed outputs yields, for every packed document, a document for (network, alias id) equal to the
+//! harness model (same judgement as above). Position of a document in the returned list, and what an empty state
+//! metadata yields, are left to the library.
 use identity_core::convert::{FromJson, ToJson};
 use identity_iota_core::block::address::{Address, AliasAddress, Ed25519Address};
-use identity_iota_core::block::output::unlock_condition::{GovernorAddressUnlockCondition, StateControllerAddressUnlockCondition};
-use identity_iota_core::block::output::{AliasId, AliasOutput, AliasOutputBuilder, UnlockCondition};
-use identity_iota_core::{IotaDID, IotaDocument};
+use identity_iota_core::block::input::{Input, UtxoInput};
+use identity_iota_core::block::output::unlock_condition::{AddressUnlockCondition, GovernorAddressUnlockCondition, StateControllerAddressUnlockCondition};
+use identity_iota_core::block::output::{AliasId, AliasOutput, AliasOutputBuilder, BasicOutputBuilder, InputsCommitment, Output, OutputId, UnlockCondition};
+use identity_iota_core::block::parent::Parents;
+use identity_iota_core::block::payload::transaction::{RegularTransactionEssence, TransactionEssence, TransactionId};
+use identity_iota_core::block::payload::{Payload, TransactionPayload};
+use identity_iota_core::block::signature::{Ed25519Signature, Signature};
+use identity_iota_core::block::unlock::{SignatureUnlock, Unlock, Unlocks};
+use identity_iota_core::block::{Block, BlockId};
+use identity_iota_core::{IotaDID, IotaDocument, NetworkName};
 use serde_json::{json, Map, Value};
 use vh::panicmon::catch;
 use vh::{Args, Report, Rng};
@@ -46,7 +63,13 @@ fn jwk(rng: &mut Rng) -> Value {
 }
 
 fn gen_model(rng: &mut Rng) -> Model {
-  let net = rng.pick(&NETS).to_string();
+  gen_model_on(rng, None)
+}
+
+/// `force_net`: the network of the document's own DID (drawn when None; the draw is consumed either way).
+fn gen_model_on(rng: &mut Rng, force_net: Option<&str>) -> Model {
+  let drawn = rng.pick(&NETS).to_string();
+  let net = force_net.map(String::from).unwrap_or(drawn);
   let tag = rng.bytes(32);
   let me = did_str(&net, &tag);
   let foreign_iota: Vec<String> = (0..3).map(|_| { let n = *rng.pick(&NETS); let t = rng.bytes(32); did_str(n, &t) }).collect();
@@ -162,6 +185,97 @@ fn without_ledger_fields(v: &Value) -> Value {
   v
 }
 
+/// What the judgement of one unpacked document saw (for counters and samples).
+struct Judged {
+  want_c: Vec<String>,
+  got_c: Vec<String>,
+  alias_did: Option<String>,
+}
+
+/// The statement's judgement of one document read back from an alias output: equal to the harness model rendered for
+/// `target`, ledger address fields excepted; controllers = packed controllers (+ at most the DID of an alias state
+/// controller). Violations are reported under `<prefix>:…`. None = the document itself differed.
+fn judge(rep: &mut Report, prefix: &str, got: &IotaDocument, m: &Model, target: &str, target_net: &str, sc_addr: &Address, case: &Value) -> Option<Judged> {
+  let got_json: Value = serde_json::from_str(&got.to_json().expect("document serialises")).expect("json");
+  let want = retarget(&m.doc, &m.me, target);
+  // normal form of the expectation through the library's own (de)serialiser is NOT used: compare as JSON trees with
+  // the fields that legitimately differ removed
+  let (g, w) = (without_ledger_fields(&got_json), without_ledger_fields(&want));
+  if g != w {
+    rep.violation(
+      &format!("{}:document-differs", prefix),
+      "document unpacked from the alias output differs from the packed one beyond ledger fields and controller",
+      json!({"case": case, "got": got_json, "want": want}),
+    );
+    return None;
+  }
+  // controllers
+  let want_c: Vec<String> = controllers_of(&want);
+  let got_c: Vec<String> = controllers_of(&got_json);
+  let alias_did = match sc_addr {
+    Address::Alias(a) => Some(did_str(target_net, &a.alias_id()[..])),
+    _ => None,
+  };
+  let missing: Vec<&String> = want_c.iter().filter(|c| !got_c.contains(c)).collect();
+  let extra: Vec<&String> = got_c.iter().filter(|c| !want_c.contains(c) && Some(*c) != alias_did.as_ref()).collect();
+  if !missing.is_empty() {
+    rep.violation(&format!("{}:controllers-dropped", prefix), &format!("controllers {:?} of the packed document are missing after unpacking (got {:?})", missing, got_c), case.clone());
+  }
+  if !extra.is_empty() {
+    rep.violation(&format!("{}:controllers-invented", prefix), &format!("controllers {:?} appeared that are neither in the packed document nor the state controller's alias", extra), case.clone());
+  }
+  if alias_did.is_none() && got_c != want_c {
+    rep.violation(&format!("{}:controllers-differ", prefix), &format!("controllers {:?} != packed {:?} with an Ed25519 state controller", got_c, want_c), case.clone());
+  }
+  // ledger fields are filled in
+  let meta = &got_json["meta"];
+  if !meta["governorAddress"].is_string() || !meta["stateControllerAddress"].is_string() {
+    rep.violation(&format!("{}:ledger-fields-missing", prefix), "governorAddress/stateControllerAddress not set when unpacking from the alias output", case.clone());
+  }
+  Some(Judged { want_c, got_c, alias_did })
+}
+
+/// State controller / governor addresses: 0 ed25519, 1 alias (new DID), 2 alias of a controller the document already
+/// lists (when there is one on the target's network). Returns (state controller, governor, listed).
+fn gen_addresses(rng: &mut Rng, m: &Model, target_net: &str) -> (Address, Address, bool) {
+  let sc_kind = rng.below(3);
+  let mut listed = false;
+  let fresh_alias = Address::Alias(AliasAddress::new(AliasId::new(rng.bytes(32).try_into().unwrap())));
+  let sc_addr: Address = match sc_kind {
+    0 => Address::Ed25519(Ed25519Address::new(rng.bytes(32).try_into().unwrap())),
+    1 => fresh_alias,
+    _ => {
+      let cand = m.controllers.iter().filter(|c| **c != m.me).find_map(|c| {
+        let hexpart = &c[c.len() - 64..];
+        let t: Vec<u8> = (0..32).map(|k| u8::from_str_radix(&hexpart[2 * k..2 * k + 2], 16).unwrap()).collect();
+        if did_str(target_net, &t) == *c { Some(t) } else { None }
+      });
+      match cand {
+        Some(t) => {
+          listed = true;
+          Address::Alias(AliasAddress::new(AliasId::new(t.try_into().unwrap())))
+        }
+        None => fresh_alias,
+      }
+    }
+  };
+  let gov_addr: Address = if rng.bool() { Address::Ed25519(Ed25519Address::new(rng.bytes(32).try_into().unwrap())) } else { sc_addr };
+  (sc_addr, gov_addr, listed)
+}
+
+fn alias_output(alias_id: AliasId, state_metadata: Vec<u8>, sc_addr: Address, gov_addr: Address) -> Result<AliasOutput, String> {
+  AliasOutputBuilder::new_with_amount(1, alias_id)
+    .with_state_metadata(state_metadata)
+    .add_unlock_condition(UnlockCondition::StateControllerAddress(StateControllerAddressUnlockCondition::new(sc_addr)))
+    .add_unlock_condition(UnlockCondition::GovernorAddress(GovernorAddressUnlockCondition::new(gov_addr)))
+    .finish()
+    .map_err(|e| e.to_string())
+}
+
+fn addr_kind(a: &Address) -> &'static str {
+  if matches!(a, Address::Alias(_)) { "alias address" } else { "ed25519 address" }
+}
+
 fn main() {
   let args = Args::parse();
   let scale = args.extra_u64("scale", 1000);
@@ -171,7 +285,12 @@ fn main() {
      controllers, alsoKnownAs, custom properties, metadata) packed with IotaDocument::pack, wrapped into an AliasOutput with \
      Ed25519 or alias state-controller/governor addresses and read back with IotaDocument::unpack_from_output for the same or \
      another DID; expected document rendered by the harness model. distinct = (state controller kind, governor kind, #controllers, \
-     same/other DID, alias controller already listed)",
+     same/other DID, alias controller already listed). Block level: case = block with a transaction payload of 1-5 outputs \
+     (alias outputs with packed documents for the same/another DID, set or null alias id, optional trailing bytes; empty-metadata \
+     alias outputs; basic outputs) of which 0-2 alias outputs carry state metadata the statement says is rejected (wrong \
+     marker/version/encoding byte, length prefix beyond the data, truncated frame, foreign bytes without the marker), offered to \
+     IotaDocument::unpack_from_block: such a block must not be unpacked successfully, a block of well-formed outputs must yield \
+     every packed document equal to the model. distinct = (#outputs, malformed kind, its position, its alias id kind, bystander kinds)",
   );
   let n = ((if args.thorough { 400_000u64 } else { 1_600 }) * scale / 1000 / args.nshards.max(1)).max(8);
   let mut rng = args.rng(1414);
@@ -208,38 +327,11 @@ fn main() {
     let (target_net, target_tag) = if same { (m.net.clone(), m.tag.clone()) } else { (rng.pick(&NETS).to_string(), rng.bytes(32)) };
     let target = did_str(&target_net, &target_tag);
     let target_did = IotaDID::parse(&target).expect("harness DID");
-    // addresses: 0 ed25519, 1 alias (new DID), 2 alias of a controller the document already lists (when there is one on that network)
-    let sc_kind = rng.below(3);
-    let mut listed = false;
-    let fresh_alias = Address::Alias(AliasAddress::new(AliasId::new(rng.bytes(32).try_into().unwrap())));
-    let sc_addr: Address = match sc_kind {
-      0 => Address::Ed25519(Ed25519Address::new(rng.bytes(32).try_into().unwrap())),
-      1 => fresh_alias,
-      _ => {
-        let cand = m.controllers.iter().filter(|c| **c != m.me).find_map(|c| {
-          let hexpart = &c[c.len() - 64..];
-          let t: Vec<u8> = (0..32).map(|k| u8::from_str_radix(&hexpart[2 * k..2 * k + 2], 16).unwrap()).collect();
-          if did_str(&target_net, &t) == *c { Some(t) } else { None }
-        });
-        match cand {
-          Some(t) => {
-            listed = true;
-            Address::Alias(AliasAddress::new(AliasId::new(t.try_into().unwrap())))
-          }
-          None => fresh_alias,
-        }
-      }
-    };
-    let gov_addr: Address = if rng.bool() { Address::Ed25519(Ed25519Address::new(rng.bytes(32).try_into().unwrap())) } else { sc_addr };
-    let out: AliasOutput = AliasOutputBuilder::new_with_amount(1, AliasId::new(target_tag.clone().try_into().unwrap()))
-      .with_state_metadata(packed)
-      .add_unlock_condition(UnlockCondition::StateControllerAddress(StateControllerAddressUnlockCondition::new(sc_addr)))
-      .add_unlock_condition(UnlockCondition::GovernorAddress(GovernorAddressUnlockCondition::new(gov_addr)))
-      .finish()
-      .expect("harness alias output");
+    let (sc_addr, gov_addr, listed) = gen_addresses(&mut rng, &m, &target_net);
+    let out: AliasOutput = alias_output(AliasId::new(target_tag.clone().try_into().unwrap()), packed, sc_addr, gov_addr).expect("harness alias output");
     let sc_is_alias = matches!(sc_addr, Address::Alias(_));
-    let case = json!({"document": m.doc, "self": m.me, "unpacked_for": target, "state_controller": if sc_is_alias { "alias address" } else { "ed25519 address" },
-      "alias_already_a_controller": listed, "governor": if matches!(gov_addr, Address::Alias(_)) { "alias address" } else { "ed25519 address" }});
+    let case = json!({"document": m.doc, "self": m.me, "unpacked_for": target, "state_controller": addr_kind(&sc_addr),
+      "alias_already_a_controller": listed, "governor": addr_kind(&gov_addr)});
     rep.distinct("nontrivial", &format!("alias-output|sc{}|gov{}|c{}|same{}|listed{}", sc_is_alias, matches!(gov_addr, Address::Alias(_)), m.controllers.len(), same, listed));
     let got = match catch(|| IotaDocument::unpack_from_output(&target_did, &out, rng_free_bool(i))) {
       Err(p) => {
@@ -254,51 +346,309 @@ fn main() {
     };
     rep.inc("alias_output_unpacked");
     rep.inc(if same { "alias_output_same_did" } else { "alias_output_other_did" });
-    let got_json: Value = serde_json::from_str(&got.to_json().expect("document serialises")).expect("json");
-    let want = retarget(&m.doc, &m.me, &target);
-    // normal form of the expectation through the library's own (de)serialiser is NOT used: compare as JSON trees with
-    // the fields that legitimately differ removed
-    let (g, w) = (without_ledger_fields(&got_json), without_ledger_fields(&want));
-    if g != w {
-      rep.violation("alias-output:document-differs", "document unpacked from the alias output differs from the packed one beyond ledger fields and controller", json!({"case": case, "got": got_json, "want": want}));
-      continue;
-    }
-    // controllers
-    let want_c: Vec<String> = controllers_of(&want);
-    let got_c: Vec<String> = controllers_of(&got_json);
-    let alias_did = match sc_addr {
-      Address::Alias(a) => Some(did_str(&target_net, &a.alias_id()[..])),
-      _ => None,
-    };
-    let missing: Vec<&String> = want_c.iter().filter(|c| !got_c.contains(c)).collect();
-    let extra: Vec<&String> = got_c.iter().filter(|c| !want_c.contains(c) && Some(*c) != alias_did.as_ref()).collect();
-    if !missing.is_empty() {
-      rep.violation("alias-output:controllers-dropped", &format!("controllers {:?} of the packed document are missing after unpack_from_output (got {:?})", missing, got_c), case.clone());
-    }
-    if !extra.is_empty() {
-      rep.violation("alias-output:controllers-invented", &format!("controllers {:?} appeared that are neither in the packed document nor the state controller's alias", extra, ), case.clone());
-    }
-    if alias_did.is_none() && got_c != want_c {
-      rep.violation("alias-output:controllers-differ", &format!("controllers {:?} != packed {:?} with an Ed25519 state controller", got_c, want_c), case.clone());
-    }
-    if !want_c.is_empty() {
+    let Some(j) = judge(&mut rep, "alias-output", &got, &m, &target, &target_net, &sc_addr, &case) else { continue };
+    if !j.want_c.is_empty() {
       rep.inc("alias_output_with_controllers");
-      if alias_did.is_none() {
+      if j.alias_did.is_none() {
         rep.inc("alias_output_with_controllers_ed25519_state_controller");
       }
     }
-    // ledger fields are filled in
-    let meta = &got_json["meta"];
-    if !meta["governorAddress"].is_string() || !meta["stateControllerAddress"].is_string() {
-      rep.violation("alias-output:ledger-fields-missing", "governorAddress/stateControllerAddress not set by unpack_from_output", case.clone());
-    }
     if rep.want_sample() {
-      rep.sample(json!({"unpacked_for": target, "controllers_packed": want_c, "controllers_unpacked": got_c, "state_controller_alias": alias_did}));
+      rep.sample(json!({"unpacked_for": target, "controllers_packed": j.want_c, "controllers_unpacked": j.got_c, "state_controller_alias": j.alias_did}));
     }
   }
+  block_stage(&args, scale, &mut rep);
   rep.finish();
 }
 
 fn rng_free_bool(i: u64) -> bool {
   i % 2 == 0
+}
+
+// ------------------------------------------------------------------------------------------------------------------
+// Block level: IotaDocument::unpack_from_block
+// ------------------------------------------------------------------------------------------------------------------
+
+/// The kinds of state metadata the statement says are rejected (names appear in signatures and counters).
+const BAD_KINDS: [&str; 7] = ["marker", "version", "encoding", "length-prefix-beyond-data", "truncated-body", "truncated-header", "foreign-bytes-without-marker"];
+
+/// Turns a frame produced by `pack` into one of BAD_KINDS. Built from the statement's frame layout:
+/// 'D','I','D', version 1, encoding 0, u16 LE length, payload.
+fn make_bad(rng: &mut Rng, kind: usize, packed: &[u8]) -> Vec<u8> {
+  assert!(packed.len() > 9 && &packed[0..3] == b"DID" && packed[3] == 1 && packed[4] == 0, "harness: pack did not frame as expected");
+  let mut b = packed.to_vec();
+  let differing = |rng: &mut Rng, old: u8, favourites: &[u8]| -> u8 {
+    loop {
+      let v = if rng.chance(1, 2) { *rng.pick(favourites) } else { rng.below(256) as u8 };
+      if v != old {
+        return v;
+      }
+    }
+  };
+  match kind {
+    0 => {
+      let pos = rng.usize(3);
+      b[pos] = differing(rng, b[pos], &[b'd', b'i', b'D', b'I', 0, b' ', b'{', 0xff]);
+    }
+    1 => b[3] = differing(rng, 1, &[0, 2, 3, b'1', 0x81, 0xff]),
+    2 => b[4] = differing(rng, 0, &[1, 2, b'0', 0x80, 0xff]),
+    3 => {
+      let have = (b.len() - 7) as u64;
+      let claimed = match rng.below(3) {
+        0 => have + 1,
+        1 => 0xffff,
+        _ => have + 1 + rng.below(0xffff - have),
+      };
+      assert!(claimed > have && claimed <= 0xffff);
+      b[5] = (claimed & 0xff) as u8;
+      b[6] = (claimed >> 8) as u8;
+    }
+    4 => {
+      let cut = match rng.below(3) {
+        0 => 7,
+        1 => b.len() - 1,
+        _ => 7 + rng.usize(b.len() - 7),
+      };
+      b.truncate(cut);
+    }
+    5 => b.truncate(1 + rng.usize(6)),
+    _ => {
+      b = match rng.below(4) {
+        0 => packed[7..].to_vec(), // the bare JSON payload of a DID document, no frame
+        1 => b"{\"app\":\"not a DID document\",\"n\":1}".to_vec(),
+        2 => {
+          let mut x = packed.to_vec(); // marker moved behind another application's tag
+          x.splice(0..0, *b"NFT");
+          x
+        }
+        _ => {
+          let n = 1 + rng.usize(64);
+          rng.bytes(n)
+        }
+      };
+      if b.starts_with(b"DID") {
+        b[0] = b'X';
+      }
+    }
+  }
+  b
+}
+
+enum Slot {
+  /// packed document (optionally followed by trailing bytes) for `target`
+  Good { m: Model, target: String, same: bool, null_id: bool, trailing: bool, sc: Address, idx: usize },
+  Bad { kind: usize, bytes: Vec<u8>, null_id: bool },
+  Empty,
+  Basic,
+}
+
+fn block_with(outputs: Vec<Output>, rng: &mut Rng) -> Result<(Block, TransactionId), String> {
+  let essence = RegularTransactionEssence::builder(rng.next_u64(), InputsCommitment::from(<[u8; 32]>::try_from(rng.bytes(32)).unwrap()))
+    .with_inputs(vec![Input::Utxo(UtxoInput::new(TransactionId::new(rng.bytes(32).try_into().unwrap()), 0).map_err(|e| e.to_string())?)])
+    .with_outputs(outputs)
+    .finish()
+    .map_err(|e| e.to_string())?;
+  // the signature is never checked when unpacking documents
+  let signature = Ed25519Signature::from_bytes([0x77; 32], [0x55; 64]);
+  let unlocks = Unlocks::new(vec![Unlock::Signature(SignatureUnlock::new(Signature::Ed25519(Box::new(signature))))]).map_err(|e| e.to_string())?;
+  let payload = TransactionPayload::new(TransactionEssence::Regular(essence), unlocks).map_err(|e| e.to_string())?;
+  let tx_id = payload.id();
+  let block = Block::build(Parents::from_vec(vec![BlockId::new(rng.bytes(32).try_into().unwrap())]).map_err(|e| e.to_string())?)
+    .with_payload(Payload::from(payload))
+    .with_nonce(0u64)
+    .finish()
+    .map_err(|e| e.to_string())?;
+  Ok((block, tx_id))
+}
+
+fn block_stage(args: &Args, scale: u64, rep: &mut Report) {
+  let n = ((if args.thorough { 120_000u64 } else { 960 }) * scale / 1000 / args.nshards.max(1)).max(24);
+  let mut rng = args.rng(1415);
+  let mut bad_seq = 0usize;
+  for i in 0..n {
+    rep.eval();
+    let net = rng.pick(&NETS).to_string();
+    let network = NetworkName::try_from(net.clone()).expect("harness network name");
+    // two blocks in three offer malformed state metadata; the kinds are cycled so that every scale sees all of them
+    let n_bad = if i % 3 == 0 { 0 } else if rng.chance(1, 5) { 2 } else { 1 };
+    let n_good = if n_bad == 0 { 1 + rng.usize(3) } else { rng.usize(3) };
+    let n_empty = if rng.chance(1, 4) { 1 } else { 0 };
+    let n_basic = if rng.chance(1, 3) { 1 } else { 0 };
+    let mut plan: Vec<u8> = Vec::new(); // 0 good, 1 bad, 2 empty, 3 basic
+    plan.extend(std::iter::repeat(0u8).take(n_good));
+    plan.extend(std::iter::repeat(1u8).take(n_bad));
+    plan.extend(std::iter::repeat(2u8).take(n_empty));
+    plan.extend(std::iter::repeat(3u8).take(n_basic));
+    rng.shuffle(&mut plan);
+
+    let mut slots: Vec<Slot> = Vec::new();
+    let mut outputs: Vec<Output> = Vec::new();
+    let mut described: Vec<Value> = Vec::new();
+    let mut unusable = false;
+    for (idx, what) in plan.iter().enumerate() {
+      let plain_addr = Address::Ed25519(Ed25519Address::new(rng.bytes(32).try_into().unwrap()));
+      match what {
+        0 | 1 => {
+          // a document of its own for every alias output; same DID = (block network, alias id) is the document's DID
+          let same = *what == 0 && rng.chance(1, 2);
+          let null_id = !same && rng.chance(1, 4);
+          let on_block_network = same || rng.chance(1, 2);
+          let m = gen_model_on(&mut rng, if on_block_network { Some(&net) } else { None });
+          let text = m.doc.to_string();
+          let packed = match catch(|| IotaDocument::from_json(&text).ok().and_then(|d| d.pack().ok())) {
+            Ok(Some(b)) => b,
+            Ok(None) => {
+              rep.inc("block_model_document_unusable");
+              unusable = true;
+              break;
+            }
+            Err(p) => {
+              rep.violation(&format!("block:pack-panic@{}", p.file_only()), &p.msg, json!({"document": m.doc}));
+              unusable = true;
+              break;
+            }
+          };
+          let tag: Vec<u8> = if same { m.tag.clone() } else { rng.bytes(32) };
+          let alias_id = if null_id { AliasId::null() } else { AliasId::new(tag.clone().try_into().unwrap()) };
+          let (sc, gov, _listed) = gen_addresses(&mut rng, &m, &net);
+          if *what == 0 {
+            let trailing = rng.chance(1, 4);
+            let mut bytes = packed.clone();
+            if trailing {
+              let k = 1 + rng.usize(24);
+              bytes.extend(rng.bytes(k));
+            }
+            outputs.push(Output::Alias(alias_output(alias_id, bytes, sc, gov).expect("harness alias output")));
+            described.push(json!({"output": idx, "kind": "alias output with a packed document", "document": m.doc, "packed_for": m.me,
+              "alias_id": if null_id { "null (derived from the output id)".to_string() } else { hex(&tag) }, "trailing_bytes": trailing, "state_controller": addr_kind(&sc)}));
+            // target filled in below for null ids (needs the transaction id)
+            let target = if null_id { String::new() } else { did_str(&net, &tag) };
+            slots.push(Slot::Good { m, target, same, null_id, trailing, sc, idx });
+          } else {
+            let kind = bad_seq % BAD_KINDS.len();
+            bad_seq += 1;
+            let bytes = make_bad(&mut rng, kind, &packed);
+            outputs.push(Output::Alias(alias_output(alias_id, bytes.clone(), sc, gov).expect("harness alias output")));
+            described.push(json!({"output": idx, "kind": "alias output with malformed state metadata", "malformed": BAD_KINDS[kind], "state_metadata_hex": hex(&bytes),
+              "derived_from_pack_of": m.doc, "alias_id": if null_id { "null (derived from the output id)".to_string() } else { hex(&tag) }}));
+            slots.push(Slot::Bad { kind, bytes, null_id });
+          }
+        }
+        2 => {
+          let alias_id = AliasId::new(rng.bytes(32).try_into().unwrap());
+          outputs.push(Output::Alias(alias_output(alias_id, Vec::new(), plain_addr, plain_addr).expect("harness alias output")));
+          described.push(json!({"output": idx, "kind": "alias output with empty state metadata"}));
+          slots.push(Slot::Empty);
+        }
+        _ => {
+          let basic = BasicOutputBuilder::new_with_amount(1 + rng.below(1000))
+            .add_unlock_condition(UnlockCondition::Address(AddressUnlockCondition::new(plain_addr)))
+            .finish()
+            .expect("harness basic output");
+          outputs.push(Output::Basic(basic));
+          described.push(json!({"output": idx, "kind": "basic output"}));
+          slots.push(Slot::Basic);
+        }
+      }
+    }
+    if unusable {
+      continue;
+    }
+    let (block, tx_id) = match block_with(outputs, &mut rng) {
+      Ok(x) => x,
+      Err(e) => {
+        // the SDK's own limits (block size, duplicate chain ids): not a statement about the library under test
+        rep.inc("block_unbuildable");
+        let _ = e;
+        continue;
+      }
+    };
+    rep.inc("blocks_built");
+    // null alias ids: the alias id is the hash of the output id (transaction id + output index), computed by the SDK
+    for s in slots.iter_mut() {
+      if let Slot::Good { target, null_id: true, idx, .. } = s {
+        let oid = OutputId::new(tx_id, *idx as u16).expect("harness output id");
+        *target = did_str(&net, &AliasId::from(&oid)[..]);
+      }
+    }
+    let first_bad = slots.iter().position(|s| matches!(s, Slot::Bad { .. }));
+    let has_empty = slots.iter().any(|s| matches!(s, Slot::Empty));
+    let has_basic = slots.iter().any(|s| matches!(s, Slot::Basic));
+    let case = json!({"network": net, "outputs": described});
+    {
+      let (bk, bpos, bnull) = match first_bad {
+        Some(p) => {
+          let Slot::Bad { kind, null_id, .. } = &slots[p] else { unreachable!() };
+          (BAD_KINDS[*kind], if p == 0 { "first" } else if p + 1 == slots.len() { "last" } else { "middle" }, *null_id)
+        }
+        None => ("none", "-", false),
+      };
+      rep.distinct("nontrivial", &format!("block|n{}|bad{}|{}|pos-{}|nullid{}|empty{}|basic{}", slots.len(), n_bad, bk, bpos, bnull, has_empty, has_basic));
+    }
+    let res = match catch(|| IotaDocument::unpack_from_block(&network, &block)) {
+      Err(p) => {
+        rep.violation(&format!("block:unpack-panic@{}", p.file_only()), &format!("{} at {}", p.msg, p.loc()), case);
+        continue;
+      }
+      Ok(r) => r,
+    };
+    rep.inc("oracle_checks_block");
+    if let Some(p) = first_bad {
+      let Slot::Bad { kind, bytes, .. } = &slots[p] else { unreachable!() };
+      rep.inc(&format!("block_offered_{}", BAD_KINDS[*kind]));
+      match res {
+        Err(_) => rep.inc("block_malformed_rejected"),
+        Ok(docs) => {
+          let ids: Vec<String> = docs.iter().map(|d| d.id().to_string()).collect();
+          rep.violation(
+            &format!("block:malformed-state-metadata-not-rejected:{}", BAD_KINDS[*kind]),
+            &format!(
+              "unpack_from_block returned Ok({:?}) for a block whose output {} carries state metadata with a wrong/short frame ({}): {}",
+              ids,
+              p,
+              BAD_KINDS[*kind],
+              hex(&bytes[..bytes.len().min(16)])
+            ),
+            case,
+          );
+        }
+      }
+      continue;
+    }
+    let docs = match res {
+      Ok(d) => d,
+      Err(e) => {
+        if has_empty {
+          // the statement does not say what an empty byte string yields
+          rep.inc("block_with_empty_metadata_refused_unjudged");
+        } else {
+          rep.violation("block:own-pack-rejected", &format!("unpack_from_block refused a block whose alias outputs all carry what pack produced: {}", e), case);
+        }
+        continue;
+      }
+    };
+    rep.inc("block_wellformed_accepted");
+    let ids: Vec<String> = docs.iter().map(|d| d.id().to_string()).collect();
+    for s in &slots {
+      let Slot::Good { m, target, same, null_id, trailing, sc, idx } = s else { continue };
+      let found: Vec<&IotaDocument> = docs.iter().filter(|d| d.id().to_string() == *target).collect();
+      let dcase = json!({"block": case, "output": idx, "expected_did": target, "returned_ids": ids});
+      if found.is_empty() {
+        rep.violation("block:document-missing", &format!("no document for {} (output {}) among the documents unpacked from the block: {:?}", target, idx, ids), dcase);
+        continue;
+      }
+      for d in found {
+        if judge(rep, "block", d, m, target, &net, sc, &dcase).is_some() {
+          rep.inc("block_documents_equal_model");
+          rep.inc(if *same { "block_documents_same_did" } else { "block_documents_other_did" });
+          if *null_id {
+            rep.inc("block_documents_null_alias_id");
+          }
+          if *trailing {
+            rep.inc("block_documents_trailing_ignored");
+          }
+        }
+      }
+    }
+  }
 }
